@@ -144,7 +144,29 @@ def run_protocol(kind, order, noise, cuts, preselect=None):
     return n
 
 
+class _Null(logging.Handler):
+    def emit(self, record):
+        try:
+            record.getMessage()  # format the message as a real handler would
+        except Exception:  # noqa: BLE001 - real handlers route formatting errors to Handler.handleError(), they never propagate
+            pass
+
+
+_root = logging.getLogger()
+_root.addHandler(_Null())
+
+
 def oracle(case) -> Info:
+    debug_logging = case[2] % 2 == 1
+    logging.disable(logging.NOTSET if debug_logging else logging.CRITICAL)
+    _root.setLevel(logging.DEBUG if debug_logging else logging.WARNING)
+    try:
+        return _oracle(case)
+    finally:
+        logging.disable(logging.CRITICAL)
+
+
+def _oracle(case) -> Info:
     noise, cuts, tail_seed = case[0], tuple(case[1]), case[2]
     total = 0
     for name in TARGETS:
@@ -194,7 +216,7 @@ def build() -> Check:
             "seeded with genuine messages; its executions are counted in evaluations but not in distinct_nontrivial."
         ),
         assumptions=[
-            "Only exceptions escaping the public calls count; logging is disabled.",
+            "Only exceptions escaping the public calls count. Half of the cases run with the library's DEBUG logging enabled (handler that formats every record), half with logging disabled.",
             "Usability rule after noise as in C16: stuffing and P1 - all clean messages but possibly the first; no stuffing - flag-free frames starting more than 2047 + own length octets after the noise.",
         ],
         clauses=[
